@@ -41,6 +41,9 @@ def gen_graph(rng):
             attrs.append(["Parent", ps])
         if rng.random() < 0.3:
             attrs.append(["Name", ["x%d" % i]])
+        if rng.random() < 0.25 and i > 0:
+            # free attributes that merely look like the reserved tag: they name stored features but are no Parent links
+            attrs.append([rng.choice(["parent", "PARENT", "Parental", "parent_gene", "Derives_from"]), [rng.choice(names[:i])]])
         s = rng.randrange(1, 1000)
         feats.append(imp.mkfeat(type_=rng.choice(TYPES), s=s, e=s + rng.randrange(0, 500), attrs=attrs,
                                 strand=rng.choice("+-.")))
